@@ -30,6 +30,87 @@ CLAIMED = {
             "DESIGN.md 4.7, 6/C20"),
 }
 
+
+TRACE = ("RigoProps.tla predicates evaluated by TLC on recorded (pre-state, call, response, post-state) of the real RigoApp "
+         "(RigoTrace.tla), directed scenarios + seeded random block histories")
+NOTE = ("consensus engine simulated at the ABCI boundary per Tendermint 0.34; histories sampled (directed + random), "
+        "predicates exact (256-bit arithmetic in BigNat.tla); harness projections trusted, cross-checked by the Query path")
+
+
+def app(text, ref, level="exploration"):
+    return (level, "TLA+ trace validation: " + TRACE, text, NOTE, ref)
+
+
+CLAIMED.update({
+    "C01": ("exploration", "2-safety on recorded replica pairs (ReplicasTrace.tla): same history in a separate OS process and directory, and with restarts",
+            "Every history is executed by replica A in-process, by replica B in a separately started OS process on its own directory, and by a "
+            "replica restarted at random block boundaries; TLC checks that every DeliverTx result (code, data, gas), every validator-update list "
+            "and every application hash is identical, and that the consensus-state digests agree after every call.",
+            "one Go toolchain/architecture; histories sampled", "DESIGN.md 6/C01"),
+    "C02": app("Stepwise conservation: after every ABCI call balances + bonded + unbonding stake + pending fees change only by withdrawn "
+               "rewards, slashed stake (only with evidence against the delegatee), fees of a proposer-less block and self-destruct burns; "
+               "cumulative equation at every commit; exact 256-bit arithmetic; boundary amounts and contract value flows included.", "DESIGN.md 6/C02"),
+    "C03": app("Mutation matrix: for every transaction type a transaction known to succeed is signed, then every single-field mutation "
+               "(incl. narrowing probes), signature byte flips, truncated/extended signatures, six other chain ids, other signers and the "
+               "protobuf pre-image are delivered and must fail without any state change; the unmutated transaction must then succeed.", "DESIGN.md 6/C03"),
+    "C04": app("Nonce predicates on every recorded step: success only at the sender's nonce, +1 on success, unchanged on failure, nobody "
+               "else's nonce changes (contracts inside an EVM transaction excepted), no signed transaction takes effect twice; replay pool in "
+               "the generator, native and contract transactions mixed.", "DESIGN.md 6/C04"),
+    "C05": app("For every failed DeliverTx the full observable projection (accounts, stakes, unbonding, rewards, proposals, parameters, "
+               "contract code/storage digests, fee sum, stake-limiter state) must equal the one before; failure catalogue in directed scenarios, "
+               "random invalid transactions, EVM reverts / out-of-gas / invalid jumps.", "DESIGN.md 6/C05"),
+    "C06": ("exploration", "2-safety on recorded replica pairs (ReplicasTrace.tla): quiet replica vs replica with CheckTx/Query injected in every gap",
+            "For every block of the base histories, every gap (before BeginBlock, between DeliverTx calls, before EndBlock, before and after Commit) "
+            "x every element of a state-aware pool (duplicates of block transactions, staking/unstaking against every delegatee, next transfers, "
+            "withdraw, proposal, vote, garbage, queries at heights 0,h-1,h,h+1,-1) is injected into replica B; outputs and consensus-state digests "
+            "must equal the quiet replica's after every call.", "single and (thorough) paired injections; histories sampled", "DESIGN.md 6/C06"),
+    "C07": ("exploration", "2-safety on recorded replica pairs (ReplicasTrace.tla): continuous replica vs replica restarted at block boundaries",
+            "Replica B is restarted (fresh process state on a copy of the data directory) after each single boundary, after pairs/subsets of "
+            "boundaries and after every block; Info must report the last commit's height and hash, all later outputs and state digests "
+            "(incl. rebuilt volatile state: last validator set, limiter, reward-hash, EVM root) must equal the continuous replica's.",
+            "histories sampled (biased to staking, membership, governance changes)", "DESIGN.md 6/C07"),
+    "C08": ("fault_enumeration", "TLA+ model Durability.tla (commit refined into durable writes, crash anywhere) + enumeration of every crash point on the real code, judged by DurabilityTrace.tla",
+            "Every crash point of every block in the window is taken on the real application: a copy of the data directory after each consensus "
+            "call and (DurableWrite hook) after each durable write inside Commit; each copy is reopened, Info checked, the handshake rule applied, "
+            "the interrupted block replayed and the history continued; hashes compared with the never-crashed run. TLC enumerates the as-built "
+            "model's bricking points; model, code and known-findings file agree (three-way).",
+            "process death (directory copy), not power loss; Tendermint handshake rule modelled from its source", "DESIGN.md 4.5, 6/C08"),
+    "C09": ("exploration", "hostile-input exploration on the real application judged by HostileTrace.tla (no panic, rejected input leaves the state digest unchanged, probe still succeeds)",
+            "Structure-aware hostile generators (random bytes, mutated valid encodings, hostile envelopes, correctly signed transactions with hostile "
+            "payloads, queries on every path with hostile data/heights) against CheckTx, DeliverTx at every block position and Query; coverage is "
+            "reported per deepest validation layer reached.", "sampling of an infinite input space; the specification supplies the oracle", "DESIGN.md 6/C09"),
+    "C10": app("Validator updates of every EndBlock are folded over the genesis set; the result must be a correct top selection (eligibility by own "
+               "stake, size, power = total bonded power, no better excluded candidate) of the delegatee ledger committed by the previous block as "
+               "returned by queries, and every update must be well-formed; the simulated consensus engine applies Tendermint's update rules.", "DESIGN.md 6/C10"),
+    "C11": app("On every recorded state: total/self power = sums over stakes; stakes appear only by a successful staking transaction (recorded under "
+               "its target with power = amount/10^18), vanish only by refund or forfeiture, are never in two places, owner/target fixed, power changes "
+               "only under evidence; total-power query = sum.", "DESIGN.md 6/C11"),
+    "C12": app("Per unbonding stake: released only by its creator, no power afterwards, refund height = release height + period in force, unchanged "
+               "while waiting, leaves only at an EndBlock >= refund height and then credits exactly power x 10^18 to the owner and nobody else, "
+               "matured stakes must be refunded, never unbonds twice; governance changes of the period mid-flight.", "DESIGN.md 6/C12"),
+    "C13": app("Issuance at every BeginBlock = sum over signed votes of the stakes recorded at the look-back height (queries) x reward-per-power, per "
+               "owner, nothing else changes rewards; withdrawals bounded by and subtracted from the withdrawable amount exactly.", "DESIGN.md 6/C13"),
+    "C14": app("At every BeginBlock the recorded post-state must equal: stakes of each accused known validator cut by floor(p*r/100) per evidence "
+               "occurrence (too small ones forfeited), its voting weight and the tallies in open proposals cut likewise, validators below the "
+               "signing threshold fully moved to unbonding with the right refund height, everything else unchanged.", "DESIGN.md 6/C14"),
+    "C15": app("Proposal lifecycle on recorded states: proposer and voters = validators last reported to consensus with their power, window/"
+               "period/applying-height rules, votes only by voters inside the window with latest choice replacing, tallies = sums at every state, "
+               "adoption only with >= floor(2*total/3), application not before the applying height, merge keeps unset fields, parameters switch "
+               "only at commit and equal the governance query.", "DESIGN.md 6/C15"),
+    "C16": app("Admission (price = governance price, gas x price >= minimum fee), exact native cost, gas used <= limit and total balances fall by "
+               "exactly gas used x price for contract transactions, fee sum grows by gas used x price only on success, proposer credited exactly "
+               "the fee sum at EndBlock and nobody else's balance changes except matured refunds; across governance price changes.", "DESIGN.md 6/C16"),
+    "C17": ("exploration", "differential run against the reference EVM on a plain state DB seeded from the native ledger, judged by TLC (RigoProps C17) on recorded traces",
+            "For every admissible contract transaction, deployment, and transfer to an address with code, the same go-ethereum interpreter is run on a "
+            "deep copy of the EVM state in which every native account's balance and nonce is set from the native ledger, with block context and "
+            "message built independently; success/failure, gas used, return/revert data, logs, all balances and nonces, and code/storage digests of "
+            "all contracts must agree; failed transactions must have no effect.",
+            "the go-ethereum interpreter is trusted; assembled program templates (no compiler in the sandbox) + random parameters", "DESIGN.md 6/C17"),
+    "C19": app("Every query (account, delegatee, reward, gov_params, total power) at any height 1..latest, asked between blocks, mid-block and after "
+               "restarts, must equal the consensus view recorded at the end of that block; beyond-latest heights must fail; raw answers for a past "
+               "height never change; at every commit the full state read back through queries equals what the block committed.", "DESIGN.md 6/C19"),
+})
+
 NOT_YET = "check not built yet in this round (planned: see DESIGN.md section 6)"
 
 
